@@ -92,3 +92,122 @@ func cmdC12Corr(seed uint64, n int, dir string) {
 	st.Extra["files"] = files
 	st.write(dir + "/C12_corr_stats.json")
 }
+
+// ---------------------------------------------------------------------------
+// C12 system level: struct programs against the Go toolchain.
+
+func cmdC12Script(seed uint64, n int, dir string) {
+	r := newRng(seed)
+	st := newStats()
+	ftypes := []string{"int", "int", "string", "float64", "bool", "uint8"}
+	for c := 0; c < n; c++ {
+		nfields := pick(r, []int{0, 1, 2, 5, 11, 12, 13, 24, 25, 26, 48, 49, 50, 96, 97, 150, 200})
+		nmeth := pick(r, []int{0, 1, 3, 8, 20})
+		var sb strings.Builder
+		sb.WriteString("package main\n\nimport \"fmt\"\n\ntype S struct {\n")
+		types := make([]string, nfields)
+		for i := 0; i < nfields; i++ {
+			types[i] = pick(r, ftypes)
+			fmt.Fprintf(&sb, "\tf%d %s\n", i, types[i])
+		}
+		sb.WriteString("}\n\n")
+		byType := map[string][]int{}
+		for i, t := range types {
+			byType[t] = append(byType[t], i)
+		}
+		for m := 0; m < nmeth; m++ {
+			if len(byType["int"]) > 0 {
+				f := pick(r, byType["int"])
+				fmt.Fprintf(&sb, "func (s *S) m%d(a int) int {\n\ts.f%d += a\n\treturn s.f%d * 2\n}\n\n", m, f, f)
+			} else {
+				fmt.Fprintf(&sb, "func (s *S) m%d(a int) int {\n\treturn a + %d\n}\n\n", m, m)
+			}
+		}
+		sb.WriteString("func bump(p *S, k int) {\n")
+		if len(byType["int"]) > 0 {
+			fmt.Fprintf(&sb, "\tp.f%d = p.f%d + k\n", byType["int"][0], byType["int"][0])
+		}
+		sb.WriteString("\t_ = k\n}\n\nfunc main() {\n")
+		// instances and aliases
+		vars := []string{"a", "b", "c"}
+		lit := func() string {
+			var parts []string
+			for i := 0; i < nfields; i++ {
+				if r.chance(8) {
+					switch types[i] {
+					case "int":
+						parts = append(parts, fmt.Sprintf("f%d: %d", i, r.intn(100)))
+					case "string":
+						parts = append(parts, fmt.Sprintf("f%d: \"s%d\"", i, r.intn(9)))
+					case "float64":
+						parts = append(parts, fmt.Sprintf("f%d: %d.5", i, r.intn(9)))
+					case "bool":
+						parts = append(parts, fmt.Sprintf("f%d: true", i))
+					case "uint8":
+						parts = append(parts, fmt.Sprintf("f%d: %d", i, r.intn(256)))
+					}
+				}
+			}
+			return "&S{" + strings.Join(parts, ", ") + "}"
+		}
+		fmt.Fprintf(&sb, "\ta := %s\n\tb := %s\n\tc := a\n\t_, _, _ = a, b, c\n", lit(), lit())
+		nops := 20 + r.intn(60)
+		for i := 0; i < nops && nfields > 0; i++ {
+			v := pick(r, vars)
+			f := r.intn(nfields)
+			switch r.intn(10) {
+			case 0, 1, 2:
+				switch types[f] {
+				case "int":
+					fmt.Fprintf(&sb, "\t%s.f%d = %d\n", v, f, r.intn(1000))
+				case "string":
+					fmt.Fprintf(&sb, "\t%s.f%d = \"v%d\"\n", v, f, r.intn(100))
+				case "float64":
+					fmt.Fprintf(&sb, "\t%s.f%d = %d.25\n", v, f, r.intn(100))
+				case "bool":
+					fmt.Fprintf(&sb, "\t%s.f%d = !%s.f%d\n", v, f, v, f)
+				case "uint8":
+					fmt.Fprintf(&sb, "\t%s.f%d = %d\n", v, f, r.intn(256))
+				}
+			case 3:
+				switch types[f] {
+				case "int":
+					fmt.Fprintf(&sb, "\t%s.f%d += %d\n", v, f, r.intn(9)+1)
+				case "uint8":
+					fmt.Fprintf(&sb, "\t%s.f%d += %d\n", v, f, 100+r.intn(150))
+				case "string":
+					fmt.Fprintf(&sb, "\t%s.f%d += \"+\"\n", v, f)
+				case "float64":
+					fmt.Fprintf(&sb, "\t%s.f%d *= 2\n", v, f)
+				default:
+					fmt.Fprintf(&sb, "\t%s.f%d = true\n", v, f)
+				}
+			case 4:
+				if nmeth > 0 {
+					fmt.Fprintf(&sb, "\tfmt.Println(%s.m%d(%d))\n", v, r.intn(nmeth), r.intn(7))
+				}
+			case 5:
+				fmt.Fprintf(&sb, "\tbump(%s, %d)\n", v, r.intn(5))
+			case 6:
+				if r.chance(30) {
+					w := pick(r, vars)
+					fmt.Fprintf(&sb, "\t%s = %s\n", v, w) // re-alias
+				}
+			default:
+				g := r.intn(nfields)
+				fmt.Fprintf(&sb, "\tfmt.Println(a.f%d, b.f%d, c.f%d, a.f%d)\n", f, f, f, g)
+			}
+		}
+		// read every field of every instance at the end
+		for i := 0; i < nfields; i++ {
+			if i%7 == 0 || nfields < 30 {
+				fmt.Fprintf(&sb, "\tfmt.Println(%d, a.f%d, b.f%d, c.f%d)\n", i, i, i, i)
+			}
+		}
+		sb.WriteString("\tfmt.Println(a == c, a == b)\n}\n")
+		src := sb.String()
+		st.add(fmt.Sprintf("fields=%d methods=%d", nfields, nmeth), fmt.Sprintf("struct program: %d fields, %d methods, %d lines", nfields, nmeth, strings.Count(src, "\n")))
+		diffProgram(st, "struct-program", src)
+	}
+	st.write(dir + "/C12_script_stats.json")
+}
